@@ -63,6 +63,10 @@ class Delimited(Harness):
         # float texts with many decimals (19 and more digits after the point: powers of ten beyond the int64 range)
         for lits in (["0.0000000000000000001", "1.5", "0.00123456789012345678"], ["12.0000000000000000005", "0.25"], ["0.1234567890123456789012345"]):
             out.append(dict(fmt="bedgraph", rows=[[1, 1, 1, len(t)] for t in lits], literal_floats=lits))
+        # an identifier column (BED6 name) that is empty in every record, in some records
+        out.append(dict(fmt="bed6", rows=[[1, 1, 1, 0, 1, 1], [1, 2, 1, 0, 1, 1]]))
+        out.append(dict(fmt="bed6", rows=[[1, 1, 1, 0, 1, 1]]))
+        out.append(dict(fmt="bed6", rows=[[1, 1, 1, 0, 1, 1], [1, 2, 1, 2, 1, 1], [1, 1, 1, 0, 1, 1]]))
         # the '.' placeholder in some records only (a score column mixing '.' and numbers is well-formed)
         for dots in ([0], [1], [0, 2], [2]):
             rows = [[1, 1, 1, 1, 1 if r in dots else 2, 1] for r in range(3)]
